@@ -9,6 +9,8 @@ VERIF = os.path.dirname(os.path.abspath(__file__))
 def run_one(sid, all_props=False):
     d = os.path.join(VERIF, "seeded", sid)
     meta = json.load(open(os.path.join(d, "meta.json")))
+    if meta.get("obsolete"):
+        return {"id": sid, "status": "obsolete", "property": meta["property"]}
     tmp = tempfile.mkdtemp(prefix="rbv-seeded-")
     try:
         subprocess.run(["rsync", "-a", "--exclude", "target", "--exclude", ".git", "/repo/", tmp + "/"], check=True)
